@@ -252,7 +252,7 @@ func main() {
 	}
 	r := w.Rng
 	for w.Len() < w.N {
-		c := genCase(r, w.N >= 20000)
+		c := genCase(r, w.N >= 3000)
 		run(w, &c)
 	}
 	w.Finish()
